@@ -1573,10 +1573,12 @@ def r3_method(ctx, repo, rel, cname, meth, args, min_loops, attrs=None, extra_no
         return e is not None and e == n
 
     # ---- candidate loops
-    loops = {}
+    loops, instances = {}, {}
     for e in events:
         for l in e.loops:
-            loops.setdefault(id(l), l)
+            loops.setdefault(id(l.node), l)
+            if not any(x is l for x in instances.setdefault(id(l.node), [])):
+                instances[id(l.node)].append(l)
     cands = []
     for l in loops.values():
         if l.var is None:
@@ -1584,17 +1586,17 @@ def r3_method(ctx, repo, rel, cname, meth, args, min_loops, attrs=None, extra_no
         direct = not isinstance(l.it, Rng) and (aligned(l.it) or reordered(l.it) is not None and aligned(reordered(l.it)))
         uses = False
         if isinstance(l.it, Rng):
-            vs = _sym(l.var)
             for e in events:
-                if l in e.loops and e.kind in ("load", "store") and e.spec and not isinstance(e.spec, str) \
-                        and aligned_base(e, aligned) and e.spec[0][0] == "i" and it.depends(e.spec[0][1], vs):
+                own = [x for x in e.loops if x == l and x.var is not None]
+                if own and e.kind in ("load", "store") and e.spec and not isinstance(e.spec, str) \
+                        and aligned_base(e, aligned) and e.spec[0][0] == "i" and it.depends(e.spec[0][1], _sym(own[0].var)):
                     uses = True
         if direct or uses:
             cands.append(l)
     cands.sort(key=lambda l: (getattr(l.node, "lineno", 0), getattr(l.node, "col_offset", 0)))
     if len(cands) < min_loops:
         ctx.undecided("R3", base + ":loops", "expected at least %d per-instance loops, recognised %d" % (min_loops, len(cands)), loc)
-    inst_vars = [l.var for l in cands]
+    inst_vars = [x.var for l in cands for x in instances[id(l.node)] if x.var is not None]
     for idx, l in enumerate(cands):
         c = "%s:row-loop#%d" % (base, idx + 1)
         lloc = "%s:%s" % (k.module.relpath, getattr(l.node, "lineno", "?"))
@@ -1629,12 +1631,14 @@ def r3_method(ctx, repo, rel, cname, meth, args, min_loops, attrs=None, extra_no
         outs = 0
         badw = None
         for e in inside:
-            if e.kind == "store" and e.spec and e.spec[0][0] == "i" and (aligned_base(e, aligned) or it.depends(e.spec[0][1], _sym(l.var))):
+            if e.kind == "store" and e.spec and e.spec[0][0] == "i" and (aligned_base(e, aligned) or any(
+                    it.depends(e.spec[0][1], _sym(x.var)) for x in instances[id(l.node)] if x.var is not None)):
                 if innermost_inst(e, cands) is not l:
                     continue
                 outs += 1
-                if e.spec[0][1] != l.var:
-                    badw = "result of instance %r is stored at position %r of %r" % (l.var, e.spec[0][1], e.base)
+                own_var = next((x.var for x in e.loops if x == l), l.var)
+                if e.spec[0][1] != own_var:
+                    badw = "result of instance %r is stored at position %r of %r" % (own_var, e.spec[0][1], e.base)
         accs = {}
         for e in inside:
             if e.kind == "append" and l not in e.base.created_loops and innermost_inst(e, cands) is l:
@@ -1773,8 +1777,9 @@ def aligned_base(e, aligned):
 
 def innermost_inst(e, cands):
     for l in reversed(e.loops):
-        if l in cands:
-            return l
+        for c in cands:
+            if c == l:
+                return c
     return None
 
 
